@@ -51,6 +51,16 @@ Definition xq_sub (x y : XQ) : XQ :=
   | XFin a, XFin b => XFin (a - b)
   end.
 
+(* IEEE addition *)
+Definition xq_add (x y : XQ) : XQ :=
+  match x, y with
+  | XNaN, _ | _, XNaN => XNaN
+  | XPInf, XNInf | XNInf, XPInf => XNaN
+  | XPInf, _ | _, XPInf => XPInf
+  | XNInf, _ | _, XNInf => XNInf
+  | XFin a, XFin b => XFin (a + b)
+  end.
+
 (* numpy's max: NaN propagates *)
 Definition xq_max (x y : XQ) : XQ :=
   match x, y with
@@ -60,3 +70,16 @@ Definition xq_max (x y : XQ) : XQ :=
 
 Lemma xq_eqb_refl x : xq_eqb x x = true.
 Proof. destruct x; cbn; try reflexivity. apply Qeq_bool_iff. reflexivity. Qed.
+
+Lemma xq_leb_total a b : xq_leb a b = false -> xq_leb b a = true.
+Proof.
+  destruct a as [p| | |], b as [q| | |]; cbn; try discriminate; try reflexivity.
+  intros H. apply Qle_bool_iff. destruct (Qlt_le_dec q p) as [Hlt|Hle].
+  - apply Qlt_le_weak, Hlt.
+  - apply Qle_bool_iff in Hle. congruence.
+Qed.
+Lemma xq_leb_trans a b c : xq_leb a b = true -> xq_leb b c = true -> xq_leb a c = true.
+Proof.
+  destruct a as [p| | |], b as [q| | |], c as [r| | |]; cbn; try discriminate; try reflexivity.
+  rewrite !Qle_bool_iff. apply Qle_trans.
+Qed.
